@@ -2804,8 +2804,10 @@ class AggregateBase(UnitsManaged, Saveable, OpenSystem):
                     re = numpy.zeros(Ndim-start, dtype=numpy.float64)
                     # we need to subtract reorganization energies
                     for i in range(n1ex):
+                        # site to which the (vibronic) state belongs
                         re[i] = \
-                        self.sbi.get_reorganization_energy(i)
+                        self.sbi.get_reorganization_energy(
+                                               self.elinds[start+i]-1)
                 else:
                     HH = relaxation_hamiltonian
                     Ndim = HH.dim
